@@ -100,6 +100,11 @@ def model_line(s):
                 pos = sum(M.utf8_len(x).v for x in c[:j])
                 break
         f["rfind%d" % i] = "<none>" if pos is None else str(pos)
+    for i, q in enumerate(PUSHES):
+        ta = [t[0] for t in toks]
+        tb = [t[0] for t in TP.tokenize(EX, None, chars(q))]
+        ok = len(tb) <= len(ta) and all(TP.tcomp_eq(x, y).v for x, y in zip(ta[:len(tb)], tb))
+        f["pstarts%d" % i] = str(bool(ok)).lower()
     f["len"] = str(sum(M.utf8_len(x).v for x in c))
     f["count"] = str(len(c))
     bounds = {sum(M.utf8_len(x).v for x in c[:k]) for k in range(len(c) + 1)}
@@ -187,6 +192,9 @@ fn dump() {
             f.push((format!("starts{}", i), s.starts_with(q).to_string()));
             f.push((format!("find{}", i), s.find(q).map(|x| x.to_string()).unwrap_or("<none>".into())));
             f.push((format!("rfind{}", i), s.rfind(q).map(|x| x.to_string()).unwrap_or("<none>".into())));
+        }
+        for (i, q) in pushes.iter().enumerate() {
+            f.push((format!("pstarts{}", i), path.starts_with(q).to_string()));
         }
         f.push(("len".into(), s.len().to_string()));
         f.push(("count".into(), s.chars().count().to_string()));
